@@ -135,6 +135,23 @@ class Plateau2D(_Box):
         return -0.5 * np.exp2(q)
 
 
+class FlatTop2D(_Box):
+    """Gaussian with a flat top (r < 1.5): many samples TIE at the maximum likelihood.  Importance sampler
+    only - the standard sampler cannot make progress on a top plateau."""
+
+    ndim = 2
+
+    def log_likelihood(self, x):
+        return -0.5 * np.maximum(self._r2(x), 2.25) - np.log(2 * np.pi)
+
+
+class OffsetVeryLow2D(Gaussian2D):
+    """ln L ~ -2e4: exp(ln Z) underflows even in long double, Z_err / fractional_error are NaN."""
+
+    def log_likelihood(self, x):
+        return super().log_likelihood(x) - 2.0e4
+
+
 class Hole2D(_Box):
     """The prior vanishes on a disc inside the box."""
 
@@ -227,6 +244,8 @@ MODELS = {
     "gauss2": Gaussian2D,
     "uprior2": UnitPrior2D,
     "offlow2": OffsetLow2D,
+    "offvlow2": OffsetVeryLow2D,
+    "flat2": FlatTop2D,
     "offhigh2": OffsetHigh2D,
     "gauss3": Gaussian3D,
     "gauss4": Gaussian4D,
